@@ -270,7 +270,7 @@ fn install_segv_handler(id: &str) {
             (*std::ptr::addr_of_mut!(CHECK_ID))[i] = b[i];
         }
         let mut sa: libc::sigaction = std::mem::zeroed();
-        sa.sa_sigaction = on_segv as usize;
+        sa.sa_sigaction = on_segv as *const () as usize;
         sa.sa_flags = libc::SA_ONSTACK;
         libc::sigemptyset(&mut sa.sa_mask);
         libc::sigaction(libc::SIGSEGV, &sa, std::ptr::null_mut());
